@@ -6,6 +6,7 @@ import (
 	"os"
 	"path/filepath"
 	"runtime"
+	"strconv"
 	"strings"
 	"sync"
 	"time"
@@ -69,6 +70,10 @@ func childMain(specPath string) {
 		}
 	} else {
 		quietLogs(nil)
+	}
+	if v, err := strconv.Atoi(os.Getenv("VERIF_CHILD_CAP_S")); err == nil && v > 0 {
+		// never outlive the parent's cap, whatever happens to the parent
+		time.AfterFunc(time.Duration(v)*time.Second, func() { os.Exit(4) })
 	}
 	res := runCase(&spec)
 	writeResult(spec.Out, res)
